@@ -52,7 +52,7 @@ let c12_net2p args =
 let c12_na2ap args =
   match args with
   | [kind; ip; zone; port] ->
-    let a = if kind = "tcp" || kind = "udp" then NAIPPort (opt_bytes ip, str_of_hex zone, z_of_string port) else NAOther in
+    let a = if kind = "tcp" || kind = "udp" || kind = "capk" then NAIPPort (opt_bytes ip, str_of_hex zone, z_of_string port) else NAOther in
     let (ad, p) = net_addr_to_addr_port a in
     show_paddr ad ^ ":" ^ string_of_z p
   | _ -> failwith "na2ap: bad args"
